@@ -72,6 +72,15 @@ def instances(tier, seed):
                     dmax=3.7, cost=20))
     out.append(dict(name="bond:O-K:dir2:narrow-o:own-image-within-own-cutoff", family='bond', pair=('O', 'K'), dir=2, cell='narrow-o', axes=[2], other=(0.7, 0.1, 0.3), third=False,
                     dmax=3.7, swap=True, cost=20))
+    # corner crossings: the pair is bonded only through the image that crosses ALL THREE faces at once, in both index orders (the lower-indexed
+    # atom at the high a+b+c corner and the other one next to the origin needs the (-1,-1,-1) image of the first, and the other way round)
+    for j, (cell, other) in enumerate([('o1', (0.85, 0.83, 0.8)), ('t1', (0.85, 0.84, 0.72))]):
+        for ax in range(3):
+            out.append(dict(name=f"bond:corner-crossing:{cell}:axis{ax}:{'swapped' if (ax + j) % 2 else 'stored-order'}", family='bond', pair=[('C', 'C'), ('Zn', 'O'), ('C', 'H')][ax], dir=9,
+                            cell=cell, axes=[ax], other=other, third=False, swap=bool((ax + j) % 2), cost=15))
+    # a cell given in whole numbers (np.diag([10, 11, 12]) / nested lists of ints: the array has an integer dtype) is the same cell
+    out.append(dict(name="bond:C-H:dir4:o1:cell-with-integer-dtype", family='bond', pair=('C', 'H'), dir=4, cell='o1', axes=[0], other=(0.0, 0.37, 0.93), third=False, int_cell=True, cost=20))
+    out.append(dict(name="bond:Zn-O:dir9:o1:cell-with-integer-dtype", family='bond', pair=('Zn', 'O'), dir=9, cell='o1', axes=[2], other=(0.97, 0.5, 0.0), third=False, int_cell=True, swap=True, cost=20))
     # the cutoff itself is excluded ("below"): same-element metal pairs along x from the origin without a cell, where 2r, the separation and
     # the computed distance are all exact in binary floating point, so the EXACT rule (no slack) is decidable and replayable
     for pr in (('Fe', 'Fe'), ('Li', 'Li'), ('K', 'K')):
@@ -138,7 +147,7 @@ def body(ctx, p):
     order = list(range(len(els)))
     if p.get('swap'):
         order = order[::-1]
-    st = Atoms(elements=[els[i] for i in order], positions=np.zeros((len(els), 3)), cell=cell)
+    st = Atoms(elements=[els[i] for i in order], positions=np.zeros((len(els), 3)), cell=cell if not p.get('int_cell') else np.array(cell).astype(int))
     st.positions = np.array([rows[i] for i in order], dtype=object if ctx.sym else float)
     bonds = DB.detect_bonds(st)
     got = [tuple(int(x) for x in b) for b in bonds]
